@@ -77,6 +77,11 @@ class Geometry(ABC):
     # geometry should have a dict to store loose metadata
     metadata: Dict
 
+    def __copy__(self, *args):
+        # the default shallow copy shares every array with the original
+        # and breaks the caching so always use the copy method
+        return self.copy()
+
     @property
     def source(self) -> LoadSource:
         """
